@@ -118,14 +118,14 @@ def build_repo(targets=None):
 # ------------------------------------------------------------------------------------------------
 # 2. generated constants
 
-def build_cpp(name, src, extra_flags=(), light=False):
+def build_cpp(name, src, extra_flags=(), light=False, extra_deps=()):
     """Compile+link a C++ tie program against the libraries built from the current tree.
     Rebuilt when the source, or any library it links, is newer than the binary."""
     out = os.path.join(BUILD, "drv", name)
     os.makedirs(os.path.dirname(out), exist_ok=True)
     with Lock("drv_" + name):
         libs = link_libs()
-        deps = [src] + [l for l in libs if not l.startswith("-")] + [os.path.join(VERIF, "tie", "drv_common.h")]
+        deps = [src] + [l for l in libs if not l.startswith("-")] + [os.path.join(VERIF, "tie", "drv_common.h")] + list(extra_deps)
         if os.path.exists(out):
             mt = os.path.getmtime(out)
             if all(os.path.getmtime(d) <= mt for d in deps if os.path.exists(d)):
@@ -163,7 +163,15 @@ def gen_params():
     """Compile and run tie/dump_params.cpp against the current tree; rewrite coq/gen/Params_gen.v
     only when its text changes (so make re-proves exactly when a constant moved)."""
     with Lock("params"):
-        exe = build_cpp("dump_params", os.path.join(VERIF, "tie", "dump_params.cpp"))
+        pdir = os.path.join(VERIF, "tie", "params")
+        inc = "".join('#include "%s"\n' % os.path.join(pdir, f) for f in sorted(os.listdir(pdir)) if f.endswith(".h"))
+        incp = os.path.join(BUILD, "gen_inc", "params_all.h")
+        os.makedirs(os.path.dirname(incp), exist_ok=True)
+        if not os.path.exists(incp) or open(incp).read() != inc:
+            open(incp, "w").write(inc)
+        exe = build_cpp("dump_params", os.path.join(VERIF, "tie", "dump_params.cpp"),
+                        extra_flags=["-I" + os.path.dirname(incp)],
+                        extra_deps=[incp] + [os.path.join(pdir, f) for f in os.listdir(pdir)])
         rc, out, _ = run([exe])
         if rc != 0:
             raise InfraError("dump_params failed:\n" + out[-3000:])
